@@ -90,4 +90,19 @@ def run(chk, tier):
     # the sum is taken over the in-memory text lengths: it is the written length only if the writer encodes each text as it is
     from . import shared
     shared.writer_text_identity(chk, fx, "writer-text-identity")
+    # each term of the sum is Value::length(), i.e. PrimitiveValue::calculate_byte_len: its per-variant formulas (C04 unit-width) are
+    # part of this property
+    from . import c04, report
+    sub = report.Check("C04", tier)
+    c04.run(sub, tier)
+    chk.rule("value-length-formulas", "PrimitiveValue::calculate_byte_len per variant: unit width x count for binary values, stored length (+ separators, even) for text (instances of C04 unit-width)")
+    n_bl = 0
+    for inst in sub.instances:
+        if inst["rule"] == "unit-width" and str(inst["instance"]) in ("byte_len", "multipliers"):
+            n_bl += 1
+            if inst["status"] == "ok":
+                chk.ok("value-length-formulas", inst["fn"], inst["instance"], inst.get("detail"))
+            else:
+                chk.bad("value-length-formulas", inst["fn"], inst["instance"], inst.get("expected"), inst.get("found"), loc=inst.get("loc"))
+    chk.floor("value-length-formulas", "variants", n_bl, 14)
     chk.undecided.append("byte count of the executed Implicit VR LE encoding; duplicate tags in the input iterator (the map keeps one, the count sees both)")
